@@ -15,10 +15,11 @@
      - under a renumbering that keeps the insertion orders (remap()) and any other tie-break priorities, with injective
        weights: the BFS labels, every step and the result of the depth-first search (spanning tree `edges`, predecessor
        table `visited`, ring-closure pairs `tokens`, their cycle numbers) and hence one whole component of `traverse` are
-       the renamed originals (sections 8-9).
+       the renamed originals (sections 8-9); so is the token list (atoms, bonds, parentheses) the tree is flattened into,
+       i.e. the branch structure and the order in which the atoms of the component are written (section 11).
 
    What is NOT proved (the goal is stated as [smiles_invariant_discrete_goal] below, not as a theorem): that the whole
-   written string and atom order are invariant - flattening the tree into the token list, the closure numbering, the atom
+   written string and atom order are invariant - the closure numbering, the neighbour lists for the stereo marks, the atom
    / bond tokens and the stereo marks would have to be carried through the renumbering as well, and the BFS labels are
    only shown equivariant for renumberings that keep the neighbour insertion order (independence of the BFS distances
    from the neighbour order needs the shortest-path characterisation of the BFS, not proved). *)
@@ -717,4 +718,114 @@ Proof.
   split; [intros x y Hx Hy; cbn in Hx, Hy; intuition (subst; vm_compute in *; congruence)|].
   split; [intros n Hn; cbn in Hn; intuition (subst; vm_compute; reflexivity)|].
   repeat split; vm_compute; reflexivity.
+Qed.
+
+(* ==================================================================================================== *)
+(* 11. flattening the DFS tree into the token list (atoms, bonds, parentheses) under renumbering          *)
+Definition ren_tok (s : Z -> Z) (t : tok) : tok :=
+  match t with TAtom n => TAtom (s n) | TBond n m => TBond (s n) (s m) | TOpen => TOpen | TClose => TClose end.
+Definition ren_entry (s : Z -> Z) (e : fl_entry) : fl_entry := (s (fst (fst e)), snd (fst e), map (ren_tok s) (snd e)).
+Definition ren_flres (s : Z -> Z) (r : fl_res) : fl_res :=
+  match r with FlCont st => FlCont (map (ren_entry s) st) | FlDone l => FlDone (map (ren_tok s) l) | FlErr e => FlErr e end.
+Definition ren_toks (s : Z -> Z) (r : pyres (list tok)) : pyres (list tok) :=
+  match r with Ok l => Ok (map (ren_tok s) l) | Err e => Err e end.
+
+Section FlattenRen.
+  Variable s : Z -> Z.
+  Hypothesis s_inj : forall x y, s x = s y -> x = y.
+
+  Lemma second_last_ren smi : second_last_is_open (map (ren_tok s) smi) = second_last_is_open smi.
+  Proof.
+    unfold second_last_is_open. rewrite <- map_rev. destruct (rev smi) as [|a [|x r]]; cbn; try reflexivity.
+    destruct x; reflexivity.
+  Qed.
+
+  Lemma pop_second_last_ren smi : pop_second_last (map (ren_tok s) smi) = map (ren_tok s) (pop_second_last smi).
+  Proof.
+    unfold pop_second_last. rewrite <- map_rev. destruct (rev smi) as [|a [|x r]]; cbn [map]; try reflexivity.
+    rewrite map_app, map_rev. reflexivity.
+  Qed.
+
+  Lemma upd_at_map {A B} (f : A -> B) (u : A -> A) (u' : B -> B) : (forall x, u' (f x) = f (u x)) ->
+    forall i l, upd_at i u' (map f l) = map f (upd_at i u l).
+  Proof.
+    intros H i. induction i as [|i IH]; intros [|x l]; cbn; try reflexivity.
+    - rewrite H. reflexivity.
+    - rewrite IH. reflexivity.
+  Qed.
+
+  Lemma fl_step_ren edges stack : fl_step (ren_vis s edges) (map (ren_entry s) stack) = ren_flres s (fl_step edges stack).
+  Proof.
+    unfold fl_step. destruct stack as [|[[tail closure] smi] rest]; [reflexivity|].
+    cbn [map ren_entry fst snd]. unfold ren_vis. rewrite (zget_renG s s_inj (map s)).
+    destruct (zget edges tail) as [children|]; cbn [option_map].
+    - rewrite <- map_rev. destruct (rev children) as [|last revfront] eqn:E; [reflexivity|].
+      cbn [map]. rewrite !map_length. cbn [List.length]. rewrite map_length.
+      destruct (1 <? Z.of_nat (List.length children)); cbn [ren_flres].
+      + f_equal. rewrite (map_app (ren_entry s)). f_equal.
+        rewrite <- map_rev, !map_map. apply map_ext. intros c. reflexivity.
+      + f_equal. cbn [map]. f_equal. unfold ren_entry. cbn [fst snd]. rewrite map_app. reflexivity.
+    - destruct (negb (closure =? 0)).
+      + rewrite second_last_ren. destruct (second_last_is_open smi) as [b|]; [|reflexivity].
+        rewrite map_length. destruct (closure - 1 <? Z.of_nat (List.length rest)); [|reflexivity].
+        cbn [ren_flres]. f_equal.
+        apply (upd_at_map (ren_entry s)). intros [[t c] sm]. unfold ren_entry. cbn [fst snd]. f_equal.
+        rewrite (map_app (ren_tok s) sm). f_equal. destruct b; [apply pop_second_last_ren | rewrite map_app; reflexivity].
+      + destruct rest as [|[[t1 c1] s1] [|e2 rest']]; cbn [map ren_entry fst snd ren_flres]; try reflexivity.
+        * rewrite map_app. reflexivity.
+        * unfold ren_entry at 3. cbn [fst snd]. rewrite map_app. reflexivity.
+  Qed.
+
+  Lemma fl_run_ren fuel edges : forall stack,
+    fl_run fuel (ren_vis s edges) (map (ren_entry s) stack) = ren_toks s (fl_run fuel edges stack).
+  Proof.
+    induction fuel as [|fuel IH]; intros stack; cbn [fl_run]; [reflexivity|].
+    rewrite fl_step_ren. destruct (fl_step edges stack) as [st|r|e]; cbn [ren_flres ren_toks]; [apply IH | reflexivity | reflexivity].
+  Qed.
+
+  Theorem flatten_ren g t : flatten (ren_mol s g) (ren_traversal s t) = ren_toks s (flatten g t).
+  Proof.
+    unfold flatten, fl_fuel. rewrite n_atoms_ren. unfold ren_traversal, ren_dfs. cbn [tr_dfs tr_start ds_edges].
+    apply (fl_run_ren _ (ds_edges (tr_dfs t)) [(tr_start t, 0, [TAtom (tr_start t)])]).
+  Qed.
+End FlattenRen.
+
+(* traversal + flattening: the token skeleton of one component, hence the order in which its atoms are written, is the
+   renamed original *)
+Definition component_tokens (g : mol) (w tb : Z -> Z) (o : opts) (st : wstate) : pyres (list tok) :=
+  match traverse g w tb o (ids g) st with Ok t => flatten g t | Err e => Err e end.
+Theorem component_tokens_ren (g : mol) (s w w' tb tb' : Z -> Z) (o : opts) :
+  wf_mol g = true -> (forall x y, s x = s y -> x = y) -> inj_on (ids g) w -> (forall n, In n (ids g) -> w' (s n) = w n) ->
+  forall st st' : wstate, incl (ws_atoms st) (ids g) -> Permutation (map s (ws_atoms st)) (ws_atoms st') ->
+  ws_seen st' = ren_labels s (ws_seen st) -> ws_cycle st' = ws_cycle st ->
+  component_tokens (ren_mol s g) w' tb' o st' = ren_toks s (component_tokens g w tb o st).
+Proof.
+  intros Hwf Hs Hw Hr st st' Hi Hp Hse Hc. unfold component_tokens. rewrite ids_ren_mol.
+  rewrite (traverse_ren g s w w' tb tb' o Hwf Hs Hw Hr st st' Hi Hp Hse Hc).
+  destruct (traverse g w tb o (ids g) st) as [t|e]; cbn [ren_tres]; [|reflexivity].
+  apply flatten_ren. exact Hs.
+Qed.
+
+(* the atoms of a token list in writing order *)
+Definition tok_atoms (l : list tok) : list Z := flat_map (fun t => match t with TAtom n => [n] | _ => [] end) l.
+Lemma tok_atoms_ren s l : tok_atoms (map (ren_tok s) l) = map s (tok_atoms l).
+Proof.
+  unfold tok_atoms. induction l as [|t l IH]; cbn; [reflexivity|]. rewrite IH. destruct t; reflexivity.
+Qed.
+
+(* non-vacuity, continuing traverse_example: isobutanol-like branch is not needed; ethanol suffices to see the renaming *)
+Theorem component_tokens_example :
+  component_tokens ex_g (lbl exw_l) (fun n => n) default_opts exw_st = Ok [TAtom 1; TBond 1 2; TAtom 2; TBond 2 3; TAtom 3] /\
+  component_tokens (ren_mol ex_s ex_g) (lbl (ren_labels ex_s exw_l)) (fun n => - n) default_opts exw_st' =
+    Ok [TAtom 9; TBond 9 8; TAtom 8; TBond 8 7; TAtom 7].
+Proof. split; vm_compute; reflexivity. Qed.
+
+Theorem component_tokens_ren_order (g : mol) (s w w' tb tb' : Z -> Z) (o : opts) :
+  wf_mol g = true -> (forall x y, s x = s y -> x = y) -> inj_on (ids g) w -> (forall n, In n (ids g) -> w' (s n) = w n) ->
+  forall st st' : wstate, incl (ws_atoms st) (ids g) -> Permutation (map s (ws_atoms st)) (ws_atoms st') ->
+  ws_seen st' = ren_labels s (ws_seen st) -> ws_cycle st' = ws_cycle st ->
+  component_tokens (ren_mol s g) w' tb' o st' = ren_toks s (component_tokens g w tb o st) /\
+  (forall l, tok_atoms (map (ren_tok s) l) = map s (tok_atoms l)).
+Proof.
+  intros Hwf Hs Hw Hr st st' Hi Hp Hse Hc. split; [apply component_tokens_ren; assumption | apply tok_atoms_ren].
 Qed.
